@@ -12,6 +12,51 @@ def calls_to(f: Func, suffix: str):
     return [(b, t) for b, t in f.calls() if _suffix(callee_key(t) or "", suffix) or _suffix(callee_def(t) or "", suffix)]
 
 
+def calls_reaching(F: Facts, f: Func, suffix: str, stop=()):
+    """Blocks of calls in `f` that are `suffix` itself or a user function (or closure created for the call) that
+    transitively calls it — so a rule keeps seeing an operation after it has been moved into a helper.
+    `stop`: callee suffixes that are never followed (other operations the rule tracks separately)."""
+    def hit(k):
+        return _suffix(k or "", suffix)
+    def stopped(k):
+        return any(_suffix(k or "", s) for s in stop)
+    memo = {}
+    def reaches(k, depth=0):
+        if k in memo:
+            return memo[k]
+        memo[k] = False
+        g = F.funcs.get(k)
+        if g is None or depth > 6:
+            return False
+        for kind, tgt, _, _ in F.call_edges(g):
+            if stopped(tgt):
+                continue
+            if hit(tgt) or reaches(tgt, depth + 1):
+                memo[k] = True
+                return True
+        return False
+    out = []
+    for b, t in f.calls():
+        k = callee_key(t) or callee_def(t) or ""
+        if stopped(k):
+            continue
+        if hit(k) or hit(callee_def(t) or ""):
+            out.append(b)
+            continue
+        if k in F.funcs and reaches(k):
+            out.append(b)
+            continue
+        # closures / fn items handed to the call
+        for a in t.get("args", []):
+            cst = a.get("const")
+            if cst and "fn" in cst:
+                fk = norm(cst["fn"].get("rdef") or cst["fn"]["def"])
+                if hit(fk) or reaches(fk):
+                    out.append(b)
+                    break
+    return out
+
+
 def region_calls_to(F: Facts, region: str, suffix: str):
     out = []
     for f in F.region_funcs(region):
